@@ -16,8 +16,14 @@ import (
 	"verifharness/dpk"
 	"verifharness/vt"
 
+	"github.com/tink-crypto/tink-go/v2/insecuresecretdataaccess"
+	"github.com/tink-crypto/tink-go/v2/keyset"
 	"github.com/tink-crypto/tink-go/v2/prf"
+	"github.com/tink-crypto/tink-go/v2/prf/aescmacprf"
+	"github.com/tink-crypto/tink-go/v2/prf/hkdfprf"
+	"github.com/tink-crypto/tink-go/v2/prf/hmacprf"
 	psubtle "github.com/tink-crypto/tink-go/v2/prf/subtle"
+	tinkpb "github.com/tink-crypto/tink-go/v2/proto/tink_go_proto"
 	"github.com/tink-crypto/tink-go/v2/subtle"
 )
 
@@ -420,57 +426,130 @@ func runSets(w *vt.Writer, full bool) {
 		if err != nil {
 			vt.Fatal("keyset: %v", err)
 		}
-		var s *prf.Set
-		p, pv := vt.Try(func() { s, err = prf.NewPRFSet(h) })
-		e := vt.Ev{"ev": "set", "route": "factory", "ks": ks, "err": err != nil, "panic": p, "primaryId": "", "ids": []string{}}
+		exerciseSet(w, r, "factory", ks, h, t)
+	}
+	templateSets(w, r, full)
+}
+
+// exerciseSet builds prf.NewPRFSet(h) for the keyset ks describes and records the set and computations through it.
+func exerciseSet(w *vt.Writer, r *rand.Rand, route string, ks []ksEntry, h *keyset.Handle, t int) {
+	var err error
+	var s *prf.Set
+	p, pv := vt.Try(func() { s, err = prf.NewPRFSet(h) })
+	e := vt.Ev{"ev": "set", "route": route, "ks": ks, "err": err != nil, "panic": p, "primaryId": "", "ids": []string{}}
+	if p {
+		e["panicVal"] = fmt.Sprint(pv)
+	}
+	if err == nil && !p {
+		var got []string
+		for id := range s.PRFs {
+			got = append(got, vt.ID4(id))
+		}
+		sort.Strings(got)
+		e["primaryId"], e["ids"] = vt.ID4(s.PrimaryID), got
+	}
+	w.Emit(e)
+	if err != nil || p {
+		return
+	}
+	in := content(r, []int{0, 1, 16, 33, 64, 100}[r.Intn(6)], t)
+	sc := func(id string, f func(n uint32) ([]byte, error, bool), n uint32) {
+		var o1, o2 []byte
+		var e1, e2 error
+		present := true
+		p, pv := vt.Try(func() {
+			o1, e1, present = f(n)
+			o2, e2, _ = f(n)
+		})
+		e := vt.Ev{"ev": "setcompute", "route": route, "ks": ks, "id": id, "input": vt.Hex(in), "n": nInt(n), "nb": vt.ID4(n), "present": present,
+			"ok": present && e1 == nil && e2 == nil && !p, "out": vt.Hex(o1), "out2": vt.Hex(o2), "panic": p}
 		if p {
 			e["panicVal"] = fmt.Sprint(pv)
 		}
-		if err == nil && !p {
-			var got []string
-			for id := range s.PRFs {
-				got = append(got, vt.ID4(id))
-			}
-			sort.Strings(got)
-			e["primaryId"], e["ids"] = vt.ID4(s.PrimaryID), got
-		}
 		w.Emit(e)
-		if err != nil || p {
-			continue
+	}
+	for _, n := range []uint32{0, 1, 16, 17, uint32(r.Intn(70)), 64, 65} {
+		sc("primary", func(n uint32) ([]byte, error, bool) { o, err := s.ComputePrimaryPRF(in, n); return o, err, true }, n)
+	}
+	for _, ke := range ks {
+		var id uint32
+		fmt.Sscanf(ke.ID, "%08x", &id)
+		for _, n := range []uint32{0, 16, uint32(r.Intn(40)), uint32(maxLen(ke.PRFCfg)), uint32(maxLen(ke.PRFCfg) + 1)} {
+			sc(ke.ID, func(n uint32) ([]byte, error, bool) {
+				p, ok := s.PRFs[id]
+				if !ok {
+					return nil, nil, false
+				}
+				o, err := p.ComputePRF(in, n)
+				return o, err, true
+			}, n)
 		}
-		in := content(r, []int{0, 1, 16, 33, 64, 100}[r.Intn(6)], t)
-		sc := func(id string, f func(n uint32) ([]byte, error, bool), n uint32) {
-			var o1, o2 []byte
-			var e1, e2 error
-			present := true
-			p, pv := vt.Try(func() {
-				o1, e1, present = f(n)
-				o2, e2, _ = f(n)
-			})
-			e := vt.Ev{"ev": "setcompute", "route": "factory", "ks": ks, "id": id, "input": vt.Hex(in), "n": nInt(n), "nb": vt.ID4(n), "present": present,
-				"ok": present && e1 == nil && e2 == nil && !p, "out": vt.Hex(o1), "out2": vt.Hex(o2), "panic": p}
-			if p {
-				e["panicVal"] = fmt.Sprint(pv)
+	}
+}
+
+// describeSet reads a handle of PRF keys made by the library (key templates) back into the abstract keyset.
+func describeSet(h *keyset.Handle) []ksEntry {
+	var ks []ksEntry
+	for i := 0; i < h.Len(); i++ {
+		e, err := h.Entry(i)
+		if err != nil {
+			vt.Fatal("entry: %v", err)
+		}
+		var c dpk.PRFCfg
+		switch k := e.Key().(type) {
+		case *hmacprf.Key:
+			c = dpk.PRFCfg{Alg: "HMAC", Hash: k.Parameters().(*hmacprf.Parameters).HashType().String(), Key: vt.Hex(k.KeyBytes().Data(insecuresecretdataaccess.Token{}))}
+		case *hkdfprf.Key:
+			pp := k.Parameters().(*hkdfprf.Parameters)
+			c = dpk.PRFCfg{Alg: "HKDF", Hash: pp.HashType().String(), Salt: vt.Hex(pp.Salt()), Key: vt.Hex(k.KeyBytes().Data(insecuresecretdataaccess.Token{}))}
+		case *aescmacprf.Key:
+			c = dpk.PRFCfg{Alg: "CMAC", Key: vt.Hex(k.KeyBytes().Data(insecuresecretdataaccess.Token{}))}
+		default:
+			vt.Fatal("unexpected PRF key type %T", e.Key())
+		}
+		st := map[keyset.KeyStatus]string{keyset.Enabled: "ENABLED", keyset.Disabled: "DISABLED", keyset.Destroyed: "DESTROYED"}[e.KeyStatus()]
+		ks = append(ks, ksEntry{vt.ID4(e.KeyID()), st, e.IsPrimary(), c})
+	}
+	return ks
+}
+
+// templateSets: keysets the library generates itself (keyset.Manager.Add of the PRF key templates, random keys and
+// ids), grown and edited through the manager (SetPrimary, Disable, Delete).
+func templateSets(w *vt.Writer, r *rand.Rand, full bool) {
+	ts := []*tinkpb.KeyTemplate{prf.HMACSHA256PRFKeyTemplate(), prf.HMACSHA512PRFKeyTemplate(), prf.HKDFSHA256PRFKeyTemplate(), prf.AESCMACPRFKeyTemplate()}
+	count := 12
+	if full {
+		count = 120
+	}
+	for t := 0; t < count; t++ {
+		km := keyset.NewManager()
+		var ids []uint32
+		nk := 1 + t%4
+		for i := 0; i < nk; i++ {
+			id, err := km.Add(ts[(t+i)%len(ts)])
+			if err != nil {
+				vt.Fatal("Manager.Add: %v", err)
 			}
-			w.Emit(e)
+			ids = append(ids, id)
 		}
-		for _, n := range []uint32{0, 1, 16, 17, uint32(r.Intn(70)), 64, 65} {
-			sc("primary", func(n uint32) ([]byte, error, bool) { o, err := s.ComputePrimaryPRF(in, n); return o, err, true }, n)
+		prim := r.Intn(nk)
+		if err := km.SetPrimary(ids[prim]); err != nil {
+			vt.Fatal("SetPrimary: %v", err)
 		}
-		for _, ke := range ks {
-			var id uint32
-			fmt.Sscanf(ke.ID, "%08x", &id)
-			for _, n := range []uint32{0, 16, uint32(r.Intn(40)), uint32(maxLen(ke.PRFCfg)), uint32(maxLen(ke.PRFCfg) + 1)} {
-				sc(ke.ID, func(n uint32) ([]byte, error, bool) {
-					p, ok := s.PRFs[id]
-					if !ok {
-						return nil, nil, false
-					}
-					o, err := p.ComputePRF(in, n)
-					return o, err, true
-				}, n)
+		for i, id := range ids {
+			if i != prim && r.Intn(3) == 0 {
+				if r.Intn(2) == 0 {
+					km.Disable(id)
+				} else {
+					km.Delete(id)
+				}
 			}
 		}
+		h, err := km.Handle()
+		if err != nil {
+			vt.Fatal("Handle: %v", err)
+		}
+		exerciseSet(w, r, "template", describeSet(h), h, t)
 	}
 }
 
